@@ -906,6 +906,12 @@ class Interp:
         raise Unsupported("dict comprehension")
 
     def comprehension(self, n, env, ctx):
+        if len(n.generators) == 1 and not n.generators[0].ifs and not n.generators[0].is_async:
+            g = n.generators[0]
+            src_v = self.eval(g.iter, env, ctx)
+            sq = self.stubs.iterate_sym(src_v, ctx)
+            if sq is not None:
+                return self.sym_comprehension(n, g, sq, env, ctx)
         out = []
 
         def rec(i, e):
@@ -920,6 +926,39 @@ class Interp:
                     rec(i + 1, e2)
         rec(0, env)
         return out
+
+    def sym_comprehension(self, n, g, sq, env, ctx):
+        """[elt for target in seq] over a sequence of symbolic length: the element expression is a pure map
+        (checked: it must not write to anything) evaluated once at a generic index (so that exceptions raised
+        for some element are raised), and again at each index at which the result is inspected."""
+        from .values import SSeq
+        from .ctx import Infeasible
+        if not ctx.branch(V.lt(0, sq.n), "non-empty symbolic sequence"):
+            return []
+        cache = {}
+
+        def item(i, first=False):
+            key = i if isinstance(i, int) else z3.simplify(V.Z(i)).sexpr()
+            if key in cache:
+                return cache[key]
+            e2 = Env(env.mod, env, env.cls, env.func)
+            nw = len(ctx.writes)
+            try:
+                self.assign(g.target, sq.item(i), e2, ctx)
+                v = self.eval(n.elt, e2, ctx)
+            except PyExc:
+                if first:
+                    raise
+                # the generic element did not raise on this path, i.e. no element raises
+                raise Infeasible("comprehension element raises at an inspected index but not generically")
+            if len(ctx.writes) != nw:
+                raise Unsupported("comprehension over a symbolic-length sequence with side effects")
+            cache[key] = v
+            return v
+        iota = ctx.fresh("iota", "int")
+        ctx.assume(z3.And(iota >= 0, iota < V.Z(sq.n)), why="generic comprehension index")
+        template = item(iota, first=True)
+        return SSeq(sq.n, item, template, iota)
 
     # ------------------------------------------------------------------ operators
     def truthy_sym(self, v, ctx):
